@@ -395,6 +395,7 @@ fn c18(ctx: &mut Ctx, w: &World, st: &St, t: &PTx, _params: &Params, fin: &Finis
         match i {
             1 => needs.push((w.native[0].hash().to_bytes(), false, "withdrawal 1".into())),
             3 => needs.push((w.plutus[1].hash().to_bytes(), false, "withdrawal 3".into())),
+            6 => needs.push((w.native[1].hash().to_bytes(), false, "withdrawal 6".into())),
             _ => {}
         }
     }
